@@ -258,3 +258,53 @@ func copyProofD(p *ProofD) *ProofD {
 	}
 	return q
 }
+
+// ---- credentials with a non-revocation witness
+
+type revCred struct {
+	cred   *Credential
+	world  *revWorld
+	revIdx int
+}
+
+// issueRevCred issues (secret, attrs..., witness.E) directly; the witness value is the last attribute.
+func issueRevCred(w *revWorld, secret *big.Int, attrs []*big.Int) (*revCred, error) {
+	wit, err := w.newWitness()
+	if err != nil {
+		return nil, err
+	}
+	all := append(append([]*big.Int{}, attrs...), wit.E)
+	cred, err := issueDirect(w.kp, secret, all)
+	if err != nil {
+		return nil, err
+	}
+	cred.NonRevocationWitness = wit
+	return &revCred{cred: cred, world: w, revIdx: len(all)}, nil
+}
+
+// c11Ambiguous reports whether an honest proof with a non-revocation part falls into the
+// known-finding input class of C11: besides the revocation attribute another hidden response
+// is below 2^(AttributeSize+ChallengeLength+ZkStat+1), so the verifier's choice of the
+// revocation attribute depends on map iteration order.
+func c11Ambiguous(p *ProofD) bool {
+	if p == nil || p.NonRevocationProof == nil {
+		return false
+	}
+	lim := pow2(revocation.Parameters.AttributeSize + revocation.Parameters.ChallengeLength + revocation.Parameters.ZkStat + 1)
+	n := 0
+	for _, r := range p.AResponses {
+		if r != nil && r.Cmp(lim) < 0 {
+			n++
+		}
+	}
+	return n >= 2
+}
+
+func anyC11Ambiguous(pl ProofList) bool {
+	for _, p := range pl {
+		if d, ok := p.(*ProofD); ok && c11Ambiguous(d) {
+			return true
+		}
+	}
+	return false
+}
